@@ -138,6 +138,36 @@ def level_monotone(lu: LogarithmicUnit, q1: Quantity, q2: Quantity) -> None:
         assert lu.level(q1).magnitude < lu.level(q2).magnitude
 
 
+# ---- C05: conversion of offset-free units is an invertible linear scaling (over the contract of
+# Quantity.in_unit / conversions.convert, which is itself verified relative to the planner contract) ---
+
+
+def conv_linear(q: Quantity, k: int, target: Unit) -> None:
+    assert (q * k).in_unit(target).magnitude == k * q.in_unit(target).magnitude
+
+
+def conv_zero_and_sign(q: Quantity, target: Unit) -> None:
+    r = q.in_unit(target)
+    if q.magnitude == 0:
+        assert r.magnitude == 0
+    if q.magnitude > 0:
+        assert r.magnitude > 0
+    if q.magnitude < 0:
+        assert r.magnitude < 0
+
+
+def conv_identity(q: Quantity) -> None:
+    assert q.in_unit(q.unit).magnitude == q.magnitude
+
+
+def conv_round_trip(q: Quantity, target: Unit) -> None:
+    assert q.in_unit(target).in_unit(q.unit).magnitude == q.magnitude
+
+
+def conv_route_independent(q: Quantity, via: Unit, target: Unit) -> None:
+    assert q.in_unit(via).in_unit(target).magnitude == q.in_unit(target).magnitude
+
+
 # ---- vacuity canaries: each MUST fail (a canary that is discharged means the hypotheses of the lemma
 # contracts are contradictory and every lemma above would hold vacuously) --------------------------
 
@@ -161,3 +191,7 @@ def canary_qty(a: Quantity, b: Quantity) -> None:
 def canary_level(lu: LogarithmicUnit, q1: Quantity, q2: Quantity) -> None:
     if q1.unit is q2.unit and q1.magnitude < q2.magnitude:
         assert lu.level(q1).magnitude > lu.level(q2).magnitude
+
+
+def canary_conv(q: Quantity, target: Unit) -> None:
+    assert q.in_unit(target).magnitude == q.magnitude
